@@ -254,6 +254,28 @@ CLAIMED["C09"] = dict(
     technique="Lean 4 invariant induction over programs (commutative monoid) + Mathlib DFT reflection / improper integral + extracted switches + program correspondence",
     ref="DESIGN.md §5 C09")
 
+CLAIMED["C06"] = dict(
+    text="Lean 4 proof over the reals about the model of RedfieldRateMatrix._set_rates + ssRedfieldRateMatrix (transition frequencies, "
+         "3000 1/cm cut-off, downhill value Re cw(w) / uphill value times the Boltzmann factor, accumulation over bath components, "
+         "clean-up of small negative rates, diagonal = minus column sum) and of the Foerster _reference_implementation: columns sum to "
+         "zero for ANY bath functions, energies, couplings (rate_colsum, foerster_colsum); off-diagonal rates are non-negative when Re cw "
+         ">= 0 at non-negative frequencies, because S^T K S stays symmetric (rate_offdiag_nonneg, toEigen_symm), otherwise the clean-up "
+         "leaves a rate >= 0 or <= -rtol (clean_nonneg_or_flagged); no transfer to or from the ground state for a block-diagonal "
+         "eigenvector matrix (rate_ground_decoupled, toEigen_ground); k(a<-b) = exp(-(E_a-E_b)/kT) k(b<-a) for every pair, bath and "
+         "cut-off, by construction (rate_detailed_balance, cc_detailed_balance, cc_degenerate); the downhill rate IS "
+         "sum_n c_na^2 c_nb^2 cw_n(w_ba) for site projectors (rate_goldenrule_form, toEigen_projector) and the tensor element "
+         "R[a,a,c,c] of the C01 model is K_ac conj(L_ac) + L_ac K_ac (tensor_population_element); Foerster detailed balance given the "
+         "ratio of the two integrals (foerster_detailed_balance_partial); analytic spectral densities are odd (jOverdamped_odd, "
+         "jUnderdamped_odd) and (1+coth(w/2kT)) J(w) satisfies C(-w) = exp(-w/kT) C(w) for every odd J (ftCorr_kms via coth_identity). "
+         "Tied to the code by evaluating the rational model on the code's own eigen-decomposition and tabulated bath values and comparing "
+         "all rates (1e-11), plus oracles on random aggregates. Partial: that the FFT/spline transforms reproduce (1+coth)J (5%/15%) and "
+         "that the numerical Foerster integrals are in the Boltzmann ratio (2e-2 fs / 2%) is measured inside the resolved window "
+         "(40-700 1/cm, T >= 77 K, decayed integrand), not proved.",
+    note="Lean kernel + standard axioms; eigh/inv, spline values of the FFT-transformed correlation functions and exp are externals "
+         "handed to the model as tables; numerical-transform accuracy is observed only.",
+    technique="Lean 4 real-analysis proofs on a hand model of the rate kernels (Finset sums, coth identity) + table-driven correspondence and oracles",
+    ref="DESIGN.md §5 C06")
+
 NOT_APPLICABLE = {}
 
 
